@@ -26,6 +26,13 @@ class Params:
             if self.mslot[n] not in seen:
                 seen.add(self.mslot[n]); self.names.append(n)
 
+FOREIGN_OK = {'start', 'stop', 'pause', 'resume', 'dereg', 'state', 'sub', 'unsub', 'tell', 'publish', 'broadcast', 'pill', 'become', 'unbecome',
+              'unstash', 'stash', 'batchsize', 'batchtimeout', 'tb', 'srcreg', 'srcdereg', 'srclen', 'ctxlen', 'stats', 'finalize', 'quit', 'live'}
+
+def strip_foreign(c):
+    t = c.split()
+    return t[2:] if t and t[0] == 'foreign' else t
+
 class Gen:
     def __init__(self, rng, P, focus=None, nmods=None):
         self.r, self.P, self.focus = rng, P, focus or set()
@@ -86,10 +93,15 @@ class Gen:
             table += [(w('stash', 5), lambda: 'stash %d %d' % (m, r.randint(0, 2))),
                       (1, lambda: 'evtref %d' % r.randint(0, 1))]
         tot = sum(t[0] for t in table); y = r.random() * tot
+        c = None
         for wgt, f in table:
             y -= wgt
-            if y <= 0: return f()
-        return table[0][1]()
+            if y <= 0: c = f(); break
+        if c is None: c = table[0][1]()
+        # C14: the same call made by another thread (holding its own context, or none)
+        if 'foreign' in F and c.split()[0] in FOREIGN_OK and r.random() < 0.3:
+            c = 'foreign %d %s' % (r.randint(0, 1), c)
+        return c
     def srckey(self):
         r = self.r; k = r.choice(['fd', 'tmr', 'tmr', 'sgn', 'path', 'thresh', 'task'])
         key = {'fd': None, 'tmr': r.choice(TMR_KEYS + [0]), 'sgn': r.choice(SIGS + [0]),
@@ -182,7 +194,7 @@ class Gen:
         used = set()
         for p in self.procs.values():
             for c in p:
-                t = c.split()
+                t = strip_foreign(c)
                 if t[0] in ('sub', 'unsub', 'publish'): used.add(int(t[2]))
         used |= {1001, 1002, 1003, 1004, 1005, 1006}
         for t in sorted(used):
@@ -392,6 +404,52 @@ def gen_lifetime_case(rng, P):
             l = rng.choice(['dereg 1', 'dereg 1', 'stop 1', 'unref 1', 'evtref 0'])
         out.append(l)
     return h, out
+
+def gen_foreign_case(rng, P):
+    """C14: another thread (own context / none) calls the module API on a module while the owner is INSIDE that module's callback,
+    inside another module's callback, or outside callbacks; afterwards the owner probes that nothing took effect"""
+    g = _base(rng, P, 3, hooks=rng.random() < 0.5)
+    def fcall(m):
+        own = rng.randint(0, 1)
+        c = rng.choice([
+            'sub %d %d 2 0 %d' % (m, rng.choice([1, 2, 4]), rng.randint(1, 99)), 'unsub %d 1' % m,
+            'become %d %d' % (m, rng.randint(1, 3)), 'unbecome %d' % m, 'batchsize %d %d' % (m, rng.choice([2, 3])),
+            'batchtimeout %d 2000000000' % m, 'tb %d 1 1' % m, 'publish %d %d %d %d' % (m, rng.choice([1, 2, 4]), g.newdata(), rng.randint(0, 1)),
+            'tell %d %d %d %d' % (m, rng.randrange(3), g.newdata(), rng.randint(0, 1)), 'broadcast %d %d 0' % (m, g.newdata()),
+            'pill %d %d' % (m, rng.randrange(3)), 'stop %d' % m, 'pause %d' % m, 'resume %d' % m, 'start %d' % m, 'dereg %d' % m,
+            'srcreg %d tmr %d 0 0 0 %d' % (m, rng.choice(TMR_KEYS), rng.randint(1, 99)), 'srcdereg %d tmr %d' % (m, TMR_KEYS[0]),
+            'srclen %d 8' % m, 'unstash %d 1' % m, 'stash %d 0' % m, 'state %d' % m, 'ctxlen', 'stats', 'live'])
+        return 'foreign %d %s' % (own, c)
+    def probe(m):
+        return ['srclen %d 0' % m, 'srclen %d 8' % m, 'state %d' % m]
+    cbs = []
+    for m in (0, 1, 2):
+        for kind in ('evt', 'start', 'stop', 'eval'):
+            if kind != 'evt' and not g.mods[m]['h' + kind]: continue
+            specs = []
+            for _ in range(rng.randint(1, 5)):
+                body = []
+                x = rng.random()
+                if x < 0.5: body = [fcall(m) for _ in range(rng.randint(1, 3))]        # the owner is inside m's own callback
+                elif x < 0.65: body = [fcall(rng.randrange(3))]
+                elif x < 0.75: body = [rng.choice(['sub %d 1 2 0 5' % m, 'become %d 1' % m, 'stash %d 0' % m, 'publish %d 1 %d 0' % (m, g.newdata())])]
+                specs.append('%d:1' % (g.newproc(body) if body else 0))
+            cbs.append('cb %d %s 0 %s' % (m, kind, ' '.join(specs)))
+            if kind == 'evt': cbs.append('cb %d evt 1 0:1 0:1' % m)
+    g.cbs = cbs
+    prog = ['ctxreg 1', 'reg 0', 'reg 1', 'reg 2', 'start 0', 'start 1', 'start 2', 'sub 1 1 2 0 7', 'sub 2 2 2 0 8']
+    for _ in range(rng.randint(5, 14)):
+        x = rng.random()
+        if x < 0.35: prog += ['tell %d %d %d 0' % (rng.randrange(3), rng.randrange(3), g.newdata()), 'dispatch']
+        elif x < 0.5: prog += ['publish 0 %d %d 0' % (rng.choice([1, 2, 4]), g.newdata()), 'dispatch']
+        elif x < 0.8: prog += [fcall(rng.randrange(3))] + probe(rng.randrange(3))
+        elif x < 0.9: prog += [rng.choice(['stop', 'pause']) + ' 1', fcall(1), rng.choice(['start', 'resume']) + ' 1']
+        else: prog.append('dispatch')
+    for m in (0, 1, 2): prog += probe(m) + ['unbecome %d' % m]
+    prog += ['publish 0 1 %d 0' % g.newdata(), 'publish 0 2 %d 0' % g.newdata(), 'publish 0 4 %d 0' % g.newdata(), 'dispatch', 'quit 1', 'dispatch', 'dispatch', 'live',
+             'foreign 1 dereg 0', 'dereg 0', 'dereg 1', 'dereg 2', 'foreign 0 ctxlen', 'ctxdereg', 'live']
+    g.procs[1] = prog
+    return 'core', g.lines()
 
 def gen_mixed_case(rng, P):
     return rng.choice([gen_sources_case, gen_stash_case, gen_lifetime_case, gen_lifetime_case, gen_batch_case, gen_become_case, gen_burst_case])(rng, P)
